@@ -1,9 +1,122 @@
-(* C14 — GCS filters are bit-exact Golomb-Rice encodings and serialise losslessly.
-   Only statements; every proof is `exact <lemma proved elsewhere>`. *)
-From BU Require Import Lib.Bytes Gcs.SipHash Gcs.Gcs Gcs.GcsProofs.
+(* C14 — GCS filters are bit-exact Golomb-Rice encodings and serialise losslessly; block-filter
+   builder content; filter hash and header.
+   Only statements; every proof is `exact <lemma proved elsewhere>`.
+
+   [hash] stands for siphash.Sum64 (any function below 2^64), [sort] for sort.Slice (any function
+   returning a sorted permutation); Bip158Spec.v is the arithmetic (machine-word-free) reading. *)
+From BU Require Import Lib.Bytes Lib.Sha256 Gcs.SipHash Gcs.Sort Gcs.Gcs Gcs.GcsProofs Gcs.GcsBitsProofs
+  Gcs.GcsMatchProofs Gcs.GcsTheorems Gcs.GcsSortProofs Gcs.Bip158Spec Gcs.GcsSerProofs
+  Gcs.GcsBuilder Gcs.GcsBuilderProofs.
+From Coq Require Import Sorting.Sorted Sorting.Permutation.
 
 (* the portable 64x64 -> high 64 multiply is exact: floor(v*n / 2^64) for all 64-bit v, n *)
 Theorem C14_fast_reduction_spec : forall v n, v < two64 -> n < two64 ->
   fast_reduction v (N.shiftr n 32) (lo32 n) = v * n / two64.
 Proof. exact fast_reduction_spec. Qed.
 Print Assumptions C14_fast_reduction_spec.
+
+(* filter bytes = pack (Golomb-Rice codes of the deltas of the sorted values floor(H(key,item)*N*M/2^64)),
+   N() = number of items, P() = P, whenever N*M fits 64 bits *)
+Theorem C14_build_is_bip158 : forall hash sort, hash_ok hash -> sort_ok sort ->
+  forall P M key data,
+    P <= 32 -> N.of_nat (length data) < two32 -> N.of_nat (length data) * M < two64 ->
+    exists f, build hash sort P M key data = Ok f /\
+              f_n f = N.of_nat (length data) /\ f_p f = P /\
+              f_data f = spec_filter_bytes hash sort P M key data.
+Proof. exact build_is_bip158. Qed.
+Print Assumptions C14_build_is_bip158.
+
+(* the filter does not depend on the order in which the items are supplied (Go map iteration order
+   in GCSBuilder.Build is immaterial) *)
+Theorem C14_build_order_independent : forall hash sort, sort_ok sort ->
+  forall P M key data data', Permutation data data' ->
+    build hash sort P M key data = build hash sort P M key data'.
+Proof. exact build_perm. Qed.
+Print Assumptions C14_build_order_independent.
+
+(* Bytes / NBytes / PBytes / NPBytes are the stated concatenations (CompactSize N, one byte P, bytes) *)
+Theorem C14_serialisations : forall f,
+  filter_bytes f = f_data f /\
+  filter_nbytes f = compact_size (f_n f) ++ f_data f /\
+  filter_pbytes f = [f_p f] ++ f_data f /\
+  filter_npbytes f = compact_size (f_n f) ++ [f_p f] ++ f_data f.
+Proof. exact serialisations. Qed.
+Print Assumptions C14_serialisations.
+
+Theorem C14_compactsize_roundtrip : forall n rest, n < two64 -> read_varint (write_varint n ++ rest) = Ok (n, rest).
+Proof. exact read_write_varint. Qed.
+Print Assumptions C14_compactsize_roundtrip.
+
+(* a filter rebuilt from Bytes()+N()+P() or from NBytes()+P() is the same filter (same N, P, modulus,
+   bytes), hence answers every query identically; holds for every filter with N < 2^32, P <= 32 whose
+   modulus is N*M, in particular for every built filter *)
+Theorem C14_deserialise_roundtrip : forall f M,
+  f_n f < two32 -> f_p f <= 32 -> f_mod f = w64 (f_n f * M) ->
+  from_bytes (f_n f) (f_p f) M (filter_bytes f) = Ok f /\
+  from_nbytes (f_p f) M (filter_nbytes f) = Ok f.
+Proof. exact deserialise_roundtrip. Qed.
+Print Assumptions C14_deserialise_roundtrip.
+
+(* FromNBytes accepts exactly: canonical CompactSize N below 2^32, P <= 32; the rest is the filter *)
+Theorem C14_from_nbytes_accepts : forall P M d f,
+  from_nbytes P M d = Ok f <->
+  exists n rest, read_varint d = Ok (n, rest) /\ n < two32 /\ P <= 32 /\ f = mkFilter n P (w64 (n * M)) rest.
+Proof. exact from_nbytes_accepts. Qed.
+Print Assumptions C14_from_nbytes_accepts.
+
+(* BuildBasicFilter / BuildMempoolFilter: P = 19, M = 784931 (from the Go source), key = first 16 bytes
+   of the key hash, entries = the de-duplicated list below *)
+Theorem C14_builder_content : forall hash sort txs keyhash,
+  basic_filter_with_key hash sort txs keyhash =
+    build hash sort default_p default_m (firstn 16 (keyhash ++ repeat 0 16)) (add_all [] (block_entries 0 txs)).
+Proof. exact builder_content. Qed.
+Print Assumptions C14_builder_content.
+
+Theorem C14_builder_params : default_p = 19 /\ default_m = 784931.
+Proof. exact default_params. Qed.
+Print Assumptions C14_builder_params.
+
+(* ... where the entries are exactly: the serialised outpoints spent by the inputs of every transaction
+   but the first, and every non-empty output script, without duplicates *)
+Theorem C14_builder_entries : forall txs,
+  let es := add_all [] (block_entries 0 txs) in
+  NoDup es /\
+  forall e, In e es <->
+    (exists k t o, nth_error txs (S k) = Some t /\ In o (tx_ins t) /\ e = ser_outpoint o) \/
+    (exists t, In t txs /\ In e (tx_outs t) /\ e <> []).
+Proof. exact basic_entries_spec. Qed.
+Print Assumptions C14_builder_entries.
+
+(* once an error is latched every further call is a no-op and Key()/Build() return that error *)
+Theorem C14_builder_latch : forall hash sort b e, b_err b = Some e ->
+  (forall k, set_key b k = b) /\ (forall h, set_key_from_hash b h = b) /\
+  (forall p, set_p b p = b) /\ (forall m, set_m b m = b) /\ (forall n, preallocate b n = b) /\
+  (forall x, add_entry b x = Ok b) /\ (forall xs, add_entries b xs = Ok b) /\ (forall h, add_hash b h = Ok b) /\
+  b_key_get b = Err e /\ b_build hash sort b = Err e.
+Proof. exact builder_latch. Qed.
+Print Assumptions C14_builder_latch.
+
+Theorem C14_builder_param_checks : forall b, b_err b = None ->
+  (forall p, 32 < p -> b_err (set_p b p) = Some 2) /\
+  (forall p, p <= 32 -> set_p b p = mkBuilder p (b_m b) (b_key b) (b_data b) None) /\
+  (forall m, 4294967295 < m -> b_err (set_m b m) = Some 2) /\
+  (forall m, m <= 4294967295 -> set_m b m = mkBuilder (b_p b) m (b_key b) (b_data b) None).
+Proof. exact builder_param_checks. Qed.
+Print Assumptions C14_builder_param_checks.
+
+(* filter hash = SHA256d(CompactSize(N) || bytes); header = SHA256d(hash || previous header) *)
+Theorem C14_hash_header : forall f prev,
+  filter_hash f = sha256d (compact_size (f_n f) ++ f_data f) /\
+  filter_header f prev = sha256d (sha256d (compact_size (f_n f) ++ f_data f) ++ prev).
+Proof. exact hash_header. Qed.
+Print Assumptions C14_hash_header.
+
+(* BIP158 test vector: the basic filter of the testnet genesis block is 019dfca8
+   (one entry, the coinbase output script; key = first 16 bytes of the block hash) *)
+Definition sip64 (k d : list N) : N := w64 (siphash k d).
+Example C14_bip158_testnet_genesis :
+  let blockhash := [67;73;127;215;248;38;149;113;8;244;163;15;217;206;195;174;186;121;151;32;132;233;14;173;1;234;51;9;0;0;0;0] in
+  let script := [65;4;103;138;253;176;254;85;72;39;25;103;241;166;113;48;183;16;92;214;168;40;224;57;9;166;121;98;224;234;31;97;222;182;73;246;188;63;76;239;56;196;243;85;4;229;30;193;18;222;92;56;77;247;186;11;141;87;138;76;112;43;107;241;29;95;172] in
+  exists f, basic_filter_with_key sip64 isort [mkTx [mkOutpoint (repeat 0 32) 4294967295] [script]] blockhash = Ok f /\
+            filter_nbytes f = [1; 157; 252; 168].
+Proof. cbv zeta. eexists. split; [vm_compute; reflexivity | reflexivity]. Qed.
